@@ -62,6 +62,14 @@ CLAIMED = {
    text="Proof that the PRF-based key deriver's building blocks are the documented functions: the streaming PRF reader yields the RFC 5869 HKDF stream for (hash, key, salt, info=input salt), hash-type names map to the right hash functions, secretdata.Bytes construction copies (no sharing with caller buffers) and NewBytesFromRand draws exactly n fresh random bytes, and NewKeyDeriver accepts exactly the supported parameter combinations.",
    note="x/crypto/hkdf and io.Reader are trusted ghost-state contracts. The per-key-type derivers (which bytes of the stream become which key field, ID requirements) and the keyset-level deriver are NOT covered in this snapshot.",
    ref="DESIGN.md section 5 C17"),
+ "C12": dict(
+   text="Field-mapping layer of the proto serialization: (1) for every key type, generated lemmas prove that each enum / prefix table used when serializing (variant -> OutputPrefixType, hash, curve, point format, signature encoding, KEM/KDF/AEAD ids, ML-DSA / SLH-DSA instance types, JWT algorithms) is inverted by the table used when parsing: from(to(a)) == a whenever to(a) succeeds (43 lemmas, obligations over the inlined real function bodies); (2) for JWT-HMAC keys, SerializeKey and ParseKey are under contract with intermediate assertions that every key field goes to / comes from the proto field it belongs to (version, algorithm, key bytes, custom kid present iff the CustomKID strategy - an empty custom kid is a custom kid - and carried unchanged, prefix type and ID requirement), plus KID-strategy / prefix-type tables as a lemma; NewKeySerialization and its accessors.",
+   note="protobuf Marshal/Unmarshal are trusted to fill/read exactly the message's fields (nothing is assumed about bytes); NewKey/NewParameters of jwthmac are assumed contracts. One table pair is deliberately not inverse (ECIES UnspecifiedPointFormat for X25519) and is excluded with the reason in tools/gen_enum_lemmas.py. NOT covered: the key-level round trip Equal(Parse(Serialize(k)), k) as one theorem for any key type, big-integer leading-zero handling, byte-identical re-serialization, keyset handle readers/writers (binary, JSON, encrypted), Public().",
+   ref="DESIGN.md section 5 C12 and section 10.3"),
+ "C16": dict(
+   text="SLH-DSA verification path (internal/signature/slhdsa), for all twelve parameter sets as a case split over Table 2: proof that Verify/verifyInternal reject every signature whose length is not (1 + k(1+a) + h + d*len)*n bytes and that NO byte string as signature, message or context makes the verification path panic (every slice/index in verifyInternal, forsPkFromSig, htVerify, xmssPkFromSig, wotsPkFromSig, chain, wotsChecksum, base_2^b, toInt, toByte is in range, the `unreachable` panics are unreachable, the digest split md / tree index / leaf index fits the m-byte digest); toInt / toByte are big-endian conversions (Algorithms 2-3), base_2^b yields outLen digits below 2^b reading only ceil(outLen*b/8) bytes, the checksum digits are below w; the ADRS setters write exactly the Table 1 field at the right offset and nothing else, compress() is the Table 3 layout; verification writes no memory visible to the caller; DecodePublicKey accepts exactly 2n bytes.",
+   note="The six tweakable hash functions held in function-typed fields are trusted function-type contracts (fresh output of the requested length, no writes): byte-identical conformance of keys and signatures with FIPS 205 (the values of the hashes, the tree computations, the digit values of base_2^b) is NOT proved, nor is the signing path (recursive xmssNode/forsNode, forsSign, htSign) or key generation.",
+   ref="DESIGN.md section 5 C16 and section 10.3"),
  "C10": dict(
    text="Proof (for all inputs, no bound) that every scalar routine of internal/signature/mldsa/algebra.go equals the FIPS 204 algorithm transcribed in specs/fips204.gvc on all of Z_q: reduceOnce, add, sub, neg, mul (Barrett), power2Round, scalePower2, divBy2Gamma2, decompose, highBits, lowBits, makeHint, useHint, centeredAbs, centeredMax. Obligations are generated from the current source on every run.",
    note="Trusted: crypto/subtle.ConstantTime{Select,LessOrEq,Eq} contracts (specs/stdlib.gvc, incl. their documented operand ranges as call-site obligations); the transcription of FIPS 204 Alg. 35-40 in specs/fips204.gvc; gvc and the solvers. Not covered: SHAKE, sampling, NTT as polynomial evaluation, signing/verification control flow (see DESIGN.md section 5-C10 and the evidence file).",
